@@ -95,7 +95,7 @@ CHECKS["C01"] = dict(
     text="Per scheme, a code-shaped Coq model of the comparison (parsing of the version text, shortcuts, loops) and a refinement theorem: on the shape every accepted version "
          "has, the comparison the code computes equals a lexicographic order on an explicit key (padded token lists for deb, components/letter/suffix-chain/revision for "
          "ebuild and alpine, a five-field key for legacy openssl, the string order for generic), which is a total preorder; all five laws of the property and the "
-         "order-independence of sorting are proved once for any total preorder. Schemes with a theorem: generic, legacy openssl, ebuild, alpine, deb (listed in the evidence). "
+         "order-independence of sorting are proved once for any total preorder. Schemes with a theorem: generic, legacy openssl, ebuild, alpine, deb, the semver family (semver, nginx, golang, composer) and gem (listed in the evidence); rpm is modelled and compared but has no order theorem. "
          "For every version class, modelled or not, the laws are also evaluated on the implementation over triples of near-equal versions (every ordered triple of sliding windows "
          "of the near-pair stream) and random triples, with the two excluded sub-domains filtered; modelled classes are additionally compared with their model (operators, key order, "
          "theorem domain).",
@@ -162,13 +162,13 @@ CHECKS["C16"] = dict(
 CHECKS["C03"] = dict(
     text="Reference procedures written in Gallina from the published text or source of each ecosystem (coq/Ref: Debian Policy 5.6.12, rpm's rpmvercmp.c, PMS Algorithms 3.1-3.7, SemVer 2.0 "
          "section 11 as an inductive relation, the OPENSSL_VERSION_NUMBER order, pacman's version.c, Gem::Version, NuGet VersionComparer, Conan's documented rules, Maven ComparableVersion, PEP 440) and, "
-         "for deb, rpm, ebuild/alpine, the semver family and legacy openssl, theorems that the code-shaped model of the univers code computes the reference on every input of the stated "
+         "for deb, rpm, ebuild/alpine, the semver family, legacy openssl and gem, theorems that the code-shaped model of the univers code computes the reference on every input of the stated "
          "domain (deb: all strings of the characters the validity check admits, through a finite check that the transcribed characters_order table is order-isomorphic to the policy's modified "
          "ASCII; rpm: all strings, by simulation of the two loops; gentoo: all accepted texts, with a finite check of the suffix table; semver: all versions; legacy openssl: unbounded numbers, "
-         "finite patch grammar). The models are tied to /repo by the scheme correspondence; every reference, including those without a code-shaped model (alpm, gem, nuget, conan, maven, pypi, openssl "
+         "finite patch grammar). The models are tied to /repo by the scheme correspondence; every reference, including those without a code-shaped model (alpm, nuget, conan, maven, pypi, openssl "
          "dispatch), is run against the implementation on generated pairs (documentation shapes, grammar, near pairs with source-mined words, small alphabets).",
     ref="6 (C03)", technique="Coq proof (refinement of a code-shaped model to a reference procedure: simulation, order-isomorphism of tables, finite grammar sweeps) + reference/implementation correspondence",
-    note="PARTIAL in breadth: no theorem for alpm, gem, nuget, conan, maven, pypi (third-party `packaging`) and the openssl legacy/3.x dispatch (their references are compared with the implementation on "
+    note="PARTIAL in breadth: no theorem for alpm, nuget, conan, maven, pypi (third-party `packaging`) and the openssl legacy/3.x dispatch (their references are compared with the implementation on "
          "generated pairs only). Known finding: alpm follows msys2's vercmp, which differs from pacman where separator runs do not line up. "
          "Three defects found by this check were repaired by fix: commits (gentoo first component, openssl -pre, maven nested empty lists).")
 
